@@ -692,6 +692,12 @@ func (s *Server) Invoke(responseWriter http.ResponseWriter, invoke *interop.Invo
 		go func() {
 			if initCompletionResp, err := s.awaitInitialized(); err != nil {
 				verifhook.Point("invoke.initFailed")
+				if timedOut.Load() {
+					// The invocation has already timed out and the environment has been reset
+					// on its behalf. This goroutine may get here arbitrarily late: an init error
+					// cached or a shutdown issued now would hit a later generation.
+					return
+				}
 				switch err {
 				case ErrInitResetReceived, ErrInitDoneFailed:
 					// For init failures, cache the response so they can be checked later
